@@ -167,6 +167,11 @@ def run_case(kind, params):
 
 def gen_case(rng, k):
     shape = (int(rng.integers(24, 70)), int(rng.integers(24, 70)))
+    if (k // 4) % 3 == 1:
+        # frame shapes whose two spectrum axes have the same length (H == W // 2 + 1: the full axis of the rfft2 spectrum is as
+        # long as its half axis), and the transposed shape
+        w = int(rng.integers(46, 100))
+        shape = (w // 2 + 1, w) if k % 8 < 4 else (w, w // 2 + 1)
     pat = impl.pattern_params(rng, rmax=6.0)
     c = int(np.ceil(pat["search"]))
     n = int(rng.integers(1, 41)) if k % 3 else int(rng.integers(1, 8))
